@@ -23,7 +23,7 @@ def sfx(i: int) -> str:
 def names(sc) -> dict:
     s = sfx(sc["id"])
     d = sc["dname"]
-    dn = {"pubdecl": "pubdecl" + s, "_privdecl": "_privdecl" + s, "__dunder__": "__dunder" + s + "__"}[d]
+    dn = {"pubdecl": "pubdecl" + s, "_privdecl": "_privdecl" + s, "__dunder__": "__dunder" + s + "__", "__mangled": "__mangled" + s, "_trail__": "_trail" + s + "__"}[d]
     return {"decl": dn, "stem": sc["stem"] + s, "alias": (sc["reexp"]["alias"] + s) if sc["reexp"]["alias"] else "",
             "meth": "meth" + s, "attr": "attr" + s, "pmeth": "_pmeth" + s, "iattr": "iattr" + s, "attr2": "attrb" + s, "iattr2": "iattrb" + s, "ometh": "ometh" + s, "prop": "prop" + s, "inner": "Inner" + s,
             "imeth": "imeth" + s, "pinner": "_PInner" + s, "AA": "AA" + s, "BB": "BB" + s}
